@@ -752,6 +752,10 @@ func (s *sctx) flavorItem(withInstance bool, role string) Item {
 	if included != "" {
 		opts = append(opts, fmt.Sprintf("(:included-flavors %s)", included))
 	}
+	if parent != nil && !dirtyParent && included == "" && r.IntN(4) == 0 {
+		// (the flavor has as many ancestors as its component then)
+		opts = append(opts, ":no-vanilla-flavor")
+	}
 	doc := docOpt(r)
 	s.nflavor++
 	if doc != "" {
